@@ -179,3 +179,60 @@ pub fn all_nodes<'a>(root: N<'a>) -> Vec<N<'a>> {
 pub fn has_error(root: &N) -> bool {
   root.get_ts_node().has_error()
 }
+
+/// error-free pieces of a source: runs of consecutive top-level children (statements, declarations)
+/// of at most `max` bytes, re-parsed and kept only when the piece parses without error
+pub fn clean_chunks(lang: SupportLang, src: &str, max: usize) -> Vec<String> {
+  let sg = parse(lang, src);
+  let root = sg.root();
+  let mut tops: Vec<(usize, usize)> = root.children().map(|c| (c.range().start, c.range().end)).collect();
+  // some grammars wrap everything in one node: descend while there is a single big child
+  let mut cur = root.clone();
+  while tops.len() == 1 && tops[0].1 - tops[0].0 > max {
+    let Some(only) = cur.children().next() else { break };
+    tops = only.children().map(|c| (c.range().start, c.range().end)).collect();
+    cur = only;
+  }
+  let mut out = vec![];
+  let mut i = 0;
+  while i < tops.len() {
+    let s = tops[i].0;
+    let mut j = i;
+    while j + 1 < tops.len() && tops[j + 1].1 - s <= max {
+      j += 1;
+    }
+    let e = tops[j].1;
+    if e > s && e - s <= max * 2 {
+      // start at the beginning of the line so indentation stays meaningful
+      let ls = src[..s].rfind('\n').map(|p| p + 1).unwrap_or(0);
+      let piece = if src[ls..s].trim().is_empty() { &src[ls..e] } else { &src[s..e] };
+      let t = parse(lang, piece);
+      if !has_error(&t.root()) {
+        out.push(piece.to_string());
+      }
+    }
+    i = j + 1;
+  }
+  out
+}
+
+/// error-free sources for a language: clean chunks of the committed files, then of harvested files
+pub fn clean_sources(lang: SupportLang, rng: &mut Rng, n: usize, max: usize) -> Vec<String> {
+  let mut all = vec![];
+  for f in committed(lang) {
+    all.extend(clean_chunks(lang, &f, max));
+  }
+  if all.len() < n {
+    for h in harvested(lang, 6000).into_iter().take(6) {
+      all.extend(clean_chunks(lang, &h, max));
+    }
+  }
+  if all.len() <= n {
+    return all;
+  }
+  let mut keep = vec![all[0].clone()];
+  while keep.len() < n {
+    keep.push(all[rng.below(all.len())].clone());
+  }
+  keep
+}
